@@ -62,9 +62,16 @@ Proof.
       + apply Nat.eqb_eq in Ei. subst i'. rewrite Hold in Hi'. inversion Hi' as [X].
         destruct (dstatus_eqb old DFAIL) eqn:EO.
         * apply dstatus_eqb_eq in EO. left. exists i. congruence.
-        * right. apply Cf; auto. intros ->. simpl in EO. discriminate.
+        * right. destruct Cf as [F|F]; auto; [intros ->; simpl in EO; discriminate|].
+          (* the state is neither not-started nor (else the left case) finished: RUNNING *)
+          destruct (st r) eqn:SR; simpl in F; try discriminate.
+          -- destruct (l_RUN L SR) as [Z|Z]; [|right; exact Z]. exfalso.
+             destruct (NEWF X) as (k & -> & K). rewrite (I_RD I j k) in K; auto; [discriminate|].
+             right. fold r. destruct (pc r) as [| | | | |a|a|]; simpl in *; try discriminate; destruct a; simpl in *; auto; discriminate.
+          -- left. destruct A as [_ _ _ _ As _ _ _ _ _ _ _ _]. destruct As as [Y|[(Y&_)|(Y&_)]]; [rewrite Y, SR; reflexivity|rewrite ?SR in Y; simpl in Y; discriminate|rewrite ?SR in Y; simpl in Y; discriminate].
+          -- left. destruct A as [_ _ _ _ As _ _ _ _ _ _ _ _]. destruct As as [Y|[(Y&_)|(Y&_)]]; [rewrite Y, SR; reflexivity|rewrite ?SR in Y; simpl in Y; discriminate|rewrite ?SR in Y; simpl in Y; discriminate].
       + left. eauto. }
-  destruct A as [Ah Al Ap Ae As Afd Alen Aw Aes Au0 Af2].
+  destruct A as [Ah Al Ap Ae As Afd Alen Aw Aes Au0 Af2 Aerr Arun].
   assert (PC : pc r' = pc r \/ (pc r = PAwaitReady /\ pc r' = PWokenReady)) by (destruct Ap as [?|(?&?&_)]; auto).
   assert (FIN : finished (st r) = true -> st r' = st r).
   { intros F. destruct As as [?|[(?&?)|(N&?)]]; auto; try congruence. destruct (st r); simpl in *; congruence. }
@@ -353,7 +360,7 @@ Proof. intros. unfold adopted. destruct (j_adopt (spec W j)); reflexivity. Qed.
 Lemma inv_spawn : forall W s j, wf W = true -> Inv W s -> pc (jobs s j) = PSpawned ->
   Inv W (run_spawn W all_fixed s j) /\ stab0 s (run_spawn W all_fixed s j).
 Proof.
-  intros W s j WF I P. unfold run_spawn. simpl fx3. rewrite <- adopted_some.
+  intros W s j WF I P. unfold run_spawn. simpl fx3. simpl fx6. rewrite <- adopted_some.
   set (r := jobs s j) in *. set (news := map (dep_status s) (deps W j)).
   set (p := spawn_l true true (j_marker (spec W j)) (is_some_b (adopted W j)) r news).
   pose proof (I_loc I j) as L. unfold jl in L. fold r in L.
@@ -791,8 +798,8 @@ Proof.
   { intros s0 (X & Y). split; auto. apply stab0_stab; auto. }
   unfold step in H. destruct l as [j|n|j|]; simpl in H.
   - destruct ((j <? njobs W)%nat && match pc (jobs s j) with PNot => true | _ => false end
-              && forallb (dep_submitted s) (deps W j)) eqn:E; [|discriminate].
-    inversion H; subst s'. apply andb_true_iff in E. destruct E as (E & E3). apply andb_true_iff in E. destruct E as (E1 & E2).
+              && forallb (dep_submitted s) (deps W j) && fits W j) eqn:E; [|discriminate].
+    inversion H; subst s'. apply andb_true_iff in E. destruct E as (E & EFIT). apply andb_true_iff in E. destruct E as (E & E3). apply andb_true_iff in E. destruct E as (E1 & E2).
     apply Z, inv_submit; auto. apply Nat.ltb_lt; auto. destruct (pc (jobs s j)); try discriminate; auto.
   - destruct (nth_error (queue s) n) as [c|] eqn:E; [|discriminate]. inversion H; subst s'.
     destruct (@inv_dequeue W s n I) as (I0 & _).
